@@ -11,6 +11,7 @@ ASSUMPTIONS = ["box extents independent integers in [8,48]; cutoff integer in [1
                "input map: arbitrary real voxel function (uninterpreted)", "Gaussian widths 0 (hard edge, decided exactly) and 2, 3 (Gaussian = opaque operator with range contract)"]
 OUTSIDE = ["shape of the Gaussian edge (1 inside cutoff-4*sigma-1, 0 outside cutoff+4*sigma+1, monotone): numerics of skimage.filters.gaussian",
            "[0,1] range of the band-pass gain with two different Gaussians", "linearity / shift-commutation / realness follow from the term shape Real(IFFT(FFT(x)*G)) with G independent of x (structural consequence, not re-derived numerically)"]
+WITNESS_ONLY = ['Gaussian edge profile (gain 1 inside cutoff-4*sigma-1, 0 outside cutoff+4*sigma+1; h_soft_edge): evaluated with the real skimage only on the concrete witness input of each path - these two obligations exist only in the concrete run and are never counted as discharged']
 BOUNDS = {"quick": {"box": "8..48 per axis symbolic"}, "thorough": {"box": "8..48 per axis symbolic"}}
 EXPECTED_EXCEPTIONS = ()
 OPTS = {"qtimeout": 30.0}
